@@ -61,7 +61,7 @@ def check(seed, n, thorough):
     base = [(name, copy.deepcopy(vars(d))) for name, d in defaults]
     progs = []
     for k in range(n):
-        text, feats = proggen.generate(seed * 31337 + k, wild=(k % 5 == 0), size=rng.choice([4, 8, 14]))
+        text, feats = proggen.generate(seed * 31337 + k, wild=(k % 5 == 0), size=rng.choice([4, 8, 14]), same_line=True)
         st = progrun.make_settings()
         prog, out, errs, exc = progrun.load(text, st)
         if prog is None:
